@@ -120,6 +120,7 @@ package leveldbstorage
 //@ func (*PrefixStorage).Iter
 //@   trusted
 //@   loops callback(ik, ib) -> keep, ierr
+//@   where len(ik) < 1099511627776
 //@   until !keep || ierr != nil
 //@ func (*PrefixStorage).Batch
 //@   trusted
